@@ -67,7 +67,7 @@ Lemma mv_delta o a b : mv o a b -> SI a -> delta_ok (fun code => In code sl_code
 Proof.
   intros M HS. destruct M.
   - (* lite *)
-    destruct H0 as [SC (l & E & F)]. unfold same_core in SC. decompose [and] SC.
+    destruct H0 as (SC & (l & E & F) & _). unfold same_core in SC. decompose [and] SC.
     split; [|split; [lia | intros; split; congruence]].
     exists l. split; [assumption|]. eapply Forall_impl; [|exact F]. intros x Hx. left. assumption.
   - apply delta_goaway. assumption.
@@ -89,13 +89,14 @@ Proof.
   - eapply delta_one; [rewrite sc_out_release_stream; reflexivity | | sc_rw; reflexivity | sc_rw; reflexivity].
     right. right. right. right. left. eauto.
   - (* returned: the frames of the response *)
-    destruct H0 as [SC (l & E & F)]. unfold same_core in SC. decompose [and] SC.
+    destruct H0 as (SC & (l & E & F) & _). unfold same_core in SC. decompose [and] SC.
     split; [|sc_rw; split; [lia | intros; split; congruence]].
     exists l. rewrite sc_out_put. split; [assumption|]. eapply Forall_impl; [|exact F]. intros y Hy. left. assumption.
   - eapply delta_one; [reflexivity | | reflexivity | reflexivity]. right. right. right. right. right. left. eauto.
   - eapply delta_one; [reflexivity | | reflexivity | reflexivity]. right. right. right. right. right. left. eauto.
   - eapply delta_one; [reflexivity | | reflexivity | reflexivity]. right. right. right. right. right. right.
     exists 1, 0. split; [reflexivity | assumption].
+  - destruct H0 as [SC EO]. unfold same_core in SC. destruct SC as (S1 & S2 & S3 & S4 & S5 & S6 & S7 & S8 & S9 & S10 & S11 & S12 & S13 & S14 & S15). apply delta_same; assumption.
 Qed.
 
 Lemma delta_weaken (G G' : N -> Prop) a b : (forall code, G code -> G' code) -> delta_ok G a b -> delta_ok G' a b.
@@ -200,15 +201,7 @@ Proof.
 Qed.
 
 (* ---------- every event list ---------- *)
-Hypothesis HQ_new : forall id w k t, Q (set_orig_started (new_stream id w) k t).
-Hypothesis HQ_closed : forall s, Q s -> Q (set_state s SClosed).
-Hypothesis HQ_handle_state : forall fr s, Q s -> Q (handle_state fr s).
-Hypothesis HQ_weReset : forall s, Q s -> Q (set_weReset s).
-Hypothesis HQ_flags : forall s a b d, Q s -> Q (set_flags s a b d).
-Hypothesis HQ_window : forall s w, Q s -> Q (set_window s w).
-Hypothesis HQ_snd : forall s n, Q s -> Q (set_snd s n).
-Hypothesis HQ_frame : forall c s fr c' s' e, Q s -> handle_frame dec_field cfg c s fr = (c', s', e) ->
-  (forall code, e <> Some (EGoAway code)) -> Q s'.
+Hypothesis HQc : Qclosed hstate dec_field cfg Q.
 
 Notation step := (step dec_field enc_field enc_set_max cfg).
 Notation run := (run dec_field enc_field enc_set_max cfg).
@@ -217,8 +210,7 @@ Definition SIO (c : sconn) : Prop := SI c /\ OI c.
 
 Theorem SIO_step c e : SIO c -> SIO (step c e).
 Proof.
-  apply (inv_step hstate dec_field enc_field enc_set_max cfg Q HQ_new HQ_closed HQ_handle_state HQ_weReset
-           HQ_flags HQ_window HQ_snd HQ_frame SIO).
+  apply (inv_step hstate dec_field enc_field enc_set_max cfg Q HQc SIO).
   - intros c0 [H _]. eapply SI_ids_ok; eassumption.
   - intros pc a b M [H1 H2]. split; [eapply SI_gmv; eassumption | eapply OI_gmv; eassumption].
 Qed.
@@ -246,8 +238,7 @@ Theorem step_delta c e : SIO c -> SIO (step c e) /\
 Proof.
   intro H. split; [apply SIO_step; assumption|].
   assert (G : gmvs (parser_code e) c (step c e)).
-  { apply (gmvs_step hstate dec_field enc_field enc_set_max cfg Q HQ_new HQ_closed HQ_handle_state HQ_weReset
-             HQ_flags HQ_window HQ_snd HQ_frame). destruct H as [H _]. eapply SI_ids_ok; eassumption. }
+  { apply (gmvs_step hstate dec_field enc_field enc_set_max cfg Q HQc). destruct H as [H _]. eapply SI_ids_ok; eassumption. }
   revert H. induction G as [c0|a b c0 M G IH]; intro H; [exists []; reflexivity|].
   destruct H as [H1 H2]. destruct (gmv_delta _ _ _ M H1) as [(l & E & _) _].
   destruct IH as (l' & E'); [split; [eapply SI_gmv; eassumption | eapply OI_gmv; eassumption]|].
